@@ -61,11 +61,10 @@ def parseDump (s : String) : String × List (String × String) :=
       | _ => none)
   | _ => (s, [])
 
-def handle (req impl : String) : String × String :=
-  match req.splitOn " " with
-  | ["d", ops, intactS, damagedS] =>
-    match decodeSegments intactS, decodeSegments damagedS with
-    | some intact, some damaged =>
+/-- `xs` = the file has a cross-reference stream: the fall-back switch is then not predicted (the
+    mode is taken from the implementation's answer), everything after it is -/
+def judge (ops : String) (intact damaged : Bytes) (impl : String) (truth : List (Nat × Nat × Nat))
+    (bodyEnd : Nat) (xs compressed : Bool) : String × String :=
       let parts := impl.splitOn "|"
       match parts with
       | [imode, _ientries, _iroot, pages, di, dd] =>
@@ -93,21 +92,21 @@ def handle (req impl : String) : String × String :=
                | some t => containsSub (atN.drop t) (ascii ">>")
                | none => false)
           | none => false
+        let primaryOk : Bool := if xs then imode = "primary" else primaryOk
         let hs := if primaryOk then [] else scanChunked 65536 damaged
         let es := recoveredEntries hs
         let predicted :=
           if ¬ primaryOk then
-            let root := findRoot damaged es
+            let root := findRootRecovery damaged es
             let eS := if es.isEmpty then "-" else ",".intercalate (es.map fun (n, o, g) => s!"{n}:{o}:{g}")
             s!"recovery|{eS}|{(root.map fun r => s!"{r}.{rootGen es r}").getD "none"}"
           else
             -- the damaged table still parses: no reconstruction, trailer as written
-            s!"primary|-|{_iroot}"
+            s!"{if xs then imode else "primary"}|-|{_iroot}"
         let model := predicted ++ "|" ++ pages ++ "|" ++ di ++ "|" ++ dd
         -- oracle
         let (ci, oi) := parseDump di
         let (cd, od) := parseDump dd
-        let truth := intactEntries intact
         let pagesOk : Bool := match pages.splitOn "," with
           | [a, b] => a == b
           | _ => false
@@ -116,7 +115,6 @@ def handle (req impl : String) : String × String :=
           | some (_, v') => if v = v' then none else some k
           | none => some k
         -- where the intact file's cross-reference section starts (objects lie before it)
-        let bodyEnd : Nat := (lastXrefPos intact 0 none).getD intact.length
         -- a recovered offset that is no true header offset but lies inside the body: the scan took
         -- a line of stream / string / comment data for a header
         -- the scan reports the start of the line, the table the first digit: blanks may lie between
@@ -167,7 +165,8 @@ def handle (req impl : String) : String × String :=
         let classes := classes.filter (· ≠ "follows-false-header")
         -- generation numbers other than 0 do not occur in a never-updated file (ISO 32000-1
         -- §7.5.4): outside the class of files the property speaks about
-        let outOfClass : Bool := truth.any fun (_, _, g) => g ≠ 0
+        -- object streams are excluded by the property's class as well
+        let outOfClass : Bool := compressed || truth.any fun (_, _, g) => g ≠ 0
         let uniq := (classes.foldl (fun acc x => if acc.contains x then acc else acc ++ [x]) []).toArray.qsort (· < ·) |>.toList
         let detail := match diffs with
           | k :: _ => s!" obj={k}"
@@ -176,6 +175,31 @@ def handle (req impl : String) : String × String :=
         else if uniq.isEmpty then (model, "ok")
         else (model, "fail:" ++ "+".intercalate uniq ++ detail)
       | _ => (impl, "fail:unparsable-answer")
+
+def handle (req impl : String) : String × String :=
+  match req.splitOn " " with
+  | ["d", ops, intactS, damagedS] =>
+    match decodeSegments intactS, decodeSegments damagedS with
+    | some intact, some damaged =>
+      judge ops intact damaged impl (intactEntries intact) ((lastXrefPos intact 0 none).getD intact.length) false false
+    | _, _ => ("bad-request", "na")
+  | ["x", ops, objsS, intactS, damagedS] =>
+    -- objsS: `num.gen:offset` (top-level object) or `num.gen:c` (inside an object stream), `,`-joined
+    match decodeSegments intactS, decodeSegments damagedS with
+    | some intact, some damaged =>
+      let items := (objsS.splitOn ",").filterMap fun (t : String) =>
+        match t.splitOn ":" with
+        | [ng, o] =>
+          (match ng.splitOn "." with
+           | [n, g] => (match n.toNat?, g.toNat? with
+              | some n, some g => some (n, g, o.toNat?)
+              | _, _ => none)
+           | _ => none)
+        | _ => none
+      let truth := items.filterMap fun (n, g, o) => o.map fun o => (n, o, g)
+      let compressed := items.any fun (_, _, o) => o.isNone
+      let bodyEnd := (truth.map (·.2.1)).foldl max 0 + 1
+      judge ops intact damaged impl truth bodyEnd true compressed
     | _, _ => ("bad-request", "na")
   | _ => ("bad-request", "na")
 
